@@ -137,7 +137,65 @@ TCrashed ==
   /\ nunspec' = nunspec
   /\ l' = l + 1
 
-Next == TVec \/ TToAscii \/ TLaw \/ TEqv \/ TCrashed
+\* ---- the building blocks one by one (public functions of ada/ada_idna.h)
+\* blocks: cps (Unicode scalar values) -> UTF-8 (length predictor l8, written w8, bytes u8, guard bytes intact) -> back to
+\* UTF-32 (l32, w32, back); utf32_to_punycode (peok, pe); punycode_to_utf32 of that (pdok, pd); verify_punycode (pv).
+\* Function-level contract of the decoder: RFC 3492 section 6.2 on lower-case input, and a decoded string that starts
+\* with "xn--" is refused (whatwg/url#803).
+IsUpperByte(b) == b >= 65 /\ b <= 90
+TBlocks ==
+  /\ IsEvent("blocks")
+  /\ LET cps == Ev.cps
+         u8 == Utf8Encode(cps)
+         pe == PunyEncode(cps)
+         basicUpper == \E i \in 1..Len(cps) : IsUpperByte(cps[i])      \* the decoder's contract is lower-case input
+         dblAce == StartsWith(cps, XnPrefix)
+         badT == { k \in {"utf8-bytes", "utf8-length", "utf32-back", "utf32-length", "guards"} :
+                    \/ k = "utf8-bytes" /\ Ev.u8 # u8
+                    \/ k = "utf8-length" /\ (Ev.l8 # Len(u8) \/ Ev.w8 # Len(u8))
+                    \/ k = "utf32-back" /\ Ev.back # cps
+                    \/ k = "utf32-length" /\ (Ev.l32 # Len(cps) \/ Ev.w32 # Len(cps))
+                    \/ k = "guards" /\ ~Ev.guards }
+         badP == { k \in {"encode", "decode-of-encode", "verify"} :
+                    \/ k = "encode" /\ (~Ev.peok \/ Ev.pe # pe)
+                    \/ k = "decode-of-encode" /\ Ev.peok /\ Ev.pe = pe /\ ~basicUpper /\
+                         (IF dblAce THEN Ev.pdok ELSE (~Ev.pdok \/ Ev.pd # cps))
+                    \/ k = "verify" /\ Ev.pv # Ev.pdok }
+         d == (IF badT = {} THEN 0
+               ELSE Diag([l |-> l, who |-> "a", kind |-> "transcoding", props |-> << "C06" >>, failed |-> badT, expu8 |-> u8]))
+              + (IF badP = {} THEN 0
+                 ELSE Diag([l |-> l, who |-> "a", kind |-> "punycode-codec", props |-> << "C06" >>, failed |-> badP, exp |-> pe, got |-> Ev.pe]))
+     IN /\ ndiag' = ndiag + d
+        /\ nunspec' = nunspec
+  /\ l' = l + 1
+
+\* pdec: punycode_to_utf32 / verify_punycode on an arbitrary byte string, and the re-encoding of what was decoded.
+\* Unspecified (skipped): upper-case digits (callers lower-case first) and decoded values that are not Unicode scalar
+\* values (the function does not check them; to_ascii / to_unicode reject them in the validity step).
+TPdec ==
+  /\ IsEvent("pdec")
+  /\ LET inp == Ev["in"]
+         dd == PunyDecode(inp)
+         upper == \E i \in 1..Len(inp) : IsUpperByte(inp[i])
+         nonScalar == \E i \in 1..Len(Ev.cps) : Ev.cps[i] > 1114111 \/ (Ev.cps[i] >= 55296 /\ Ev.cps[i] <= 57343)
+         unspec == upper \/ (Ev.ok /\ nonScalar) \/ (~dd.ok /\ Ev.ok)
+         \* (~dd.ok /\ Ev.ok) is only ever the non-scalar case or a wrong acceptance; the latter is told apart below
+         wrongAccept == ~dd.ok /\ Ev.ok /\ ~nonScalar /\ ~upper
+         expok == dd.ok /\ ~StartsWith(dd.s, XnPrefix)
+         bad == { k \in {"verdict", "value", "verify", "reencode"} :
+                   \/ k = "verdict" /\ (wrongAccept \/ (~unspec /\ Ev.ok # expok))
+                   \/ k = "value" /\ ~unspec /\ Ev.ok /\ expok /\ Ev.cps # dd.s
+                   \/ k = "verify" /\ Ev.pv # Ev.ok
+                   \* what was decoded encodes back to the input when the input is the canonical encoding of it
+                   \/ k = "reencode" /\ ~unspec /\ Ev.ok /\ expok /\ (~Ev.reok \/ Ev.re # PunyEncode(dd.s)) }
+         d == IF bad = {} THEN 0
+              ELSE Diag([l |-> l, who |-> "a", kind |-> "punycode-codec", props |-> << "C06" >>, failed |-> bad,
+                         expok |-> expok, exp |-> dd.s, gotok |-> Ev.ok, got |-> Ev.cps])
+     IN /\ ndiag' = ndiag + d
+        /\ nunspec' = nunspec + (IF unspec /\ ~wrongAccept THEN 1 ELSE 0)
+  /\ l' = l + 1
+
+Next == TVec \/ TToAscii \/ TLaw \/ TEqv \/ TCrashed \/ TBlocks \/ TPdec
 
 Spec == Init /\ [][Next]_vars
 
